@@ -91,6 +91,23 @@ class BoxModel:
         return logl, 0.0
 
 
+class BoxedForcedModel(forcing.ForcedModel):
+    """A forced history on a bounded support: proposals outside the box are rejected whatever the
+    pattern says.  (Used for the unbounded adaptive eigenvector proposal, whose always-accepted
+    histories on an unbounded domain run the covariance up doubly exponentially.)"""
+
+    def __init__(self, pattern, names, half_width=50.0):
+        super().__init__(pattern)
+        self.names = list(names)
+        self.half_width = half_width
+
+    def __call__(self, **kw):
+        if self.n > 0 and any(abs(kw[p]) > self.half_width for p in self.names):
+            self.n += 1
+            return 0.0, -numpy.inf
+        return super().__call__(**kw)
+
+
 def random_pattern(seed):
     rng = random.Random(seed)
     bits = [rng.random() < 0.5 for _ in range(4096)]
@@ -166,10 +183,12 @@ def build(case):
             if kind in ('int', 'intbox'):
                 centre = {p: float(round(v)) for p, v in centre.items()}
         model = BoxModel(names, boxes, mk, centre=centre, sharp=case.get('sharp', 1e-4))
-    elif mk == 'random':
-        model = forcing.ForcedModel(random_pattern(case['seed'] * 31 + 7))
     else:
-        model = forcing.ForcedModel(mk)
+        pat = random_pattern(case['seed'] * 31 + 7) if mk == 'random' else mk
+        if fam == 'adaptive_eigenvector':
+            model = BoxedForcedModel(pat, names)
+        else:
+            model = forcing.ForcedModel(pat)
     ch = Chain(names, model, [prop], bit_generator=case['seed'] % (2 ** 31) + 11,
                beta=case.get('beta', 1.0))
     where = case.get('start', 'interior')
@@ -977,6 +996,7 @@ def direction_run(case):
     prev = init
     prev_bytes = scale_bytes(prop, kind)
     frozen_bytes = None
+    n_acc = 0
     xi = float(prop.target_rate)
     with CountDraws(prop, STALL_SINGLE) as cnt:
         for it in range(case['nsteps']):
@@ -995,6 +1015,7 @@ def direction_run(case):
             changed = cur_bytes != prev_bytes
             acc = bool(ch.acceptance[-1]['accepted'])
             ar = float(ch.acceptance['acceptance_ratio'][-1])
+            n_acc += acc
             if changed:
                 out['updates'] += 1
             if changed and not jumped:
@@ -1040,10 +1061,11 @@ def direction_run(case):
                     break
             prev, prev_bytes = cur, cur_bytes
     # the net effect of a sustained one-sided history
-    if not findings and pat in ('A', 'R') and out['updates'] > 0 and 'cut' not in out:
+    one_sided = n_acc in (0, out['steps'])
+    if not findings and pat in ('A', 'R') and one_sided and out['updates'] > 0 and 'cut' not in out:
         f = DIRECTION_FIELD[kind]
-        widen = pat == 'A'
-        sgn = (+1 if widen else -1) * (-1 if kind == 'vmf' else 1)
+        widen = n_acc > 0
+        sgn =(+1 if widen else -1) * (-1 if kind == 'vmf' else 1)
         comp = kind == 'at' and prop._iscomponentwise
         if not comp:
             for j, (a, b) in enumerate(zip(prev[f], init[f])):
@@ -1051,15 +1073,13 @@ def direction_run(case):
                     findings.append(('wrong-direction:' + fam,
                                      '%s: after an always-%s history %s[%d] went from %.6g to %.6g' % (
                                          fam, 'accepted' if widen else 'rejected', f, j, b, a)))
-    if not findings and pat == 'R' and kind == 'ss' and 'cut' not in out and out['steps'] >= 20:
+    if not findings and pat == 'R' and n_acc == 0 and kind == 'ss' and 'cut' not in out and out['steps'] >= 20:
         if all(a == b for a, b in zip(prev['vals'], init['vals'])):
             findings.append(('ss-cap-blocks-narrowing:' + fam,
                              '%s: %d always-rejected steps (rate 0 < target %.3g) left the scale at %s; '
                              'max_std=%.4g: the cap test `alpha*std.max() <= max_std` also blocks narrowing '
                              'when the scale is above max_std/alpha' % (
                                  fam, out['steps'], xi, ['%.4g' % v for v in init['vals'][:3]], prop.max_std)))
-    if not findings and pat == 'R' and kind == 'veitch' and 'cut' not in out and out['updates'] == 0 and out['steps'] > 3 * k:
-        pass
     out['findings'] = findings
     return out
 
@@ -1070,16 +1090,24 @@ def own_history_run(case):
     ch1, p1, _, _, _ = build(case)
     kind = kind_of(p1)
     trace1 = []
-    for _ in range(case['nsteps']):
-        ch1.step()
-        trace1.append(scale_bytes(p1, kind))
+    try:
+        for _ in range(case['nsteps']):
+            ch1.step()
+            trace1.append(scale_bytes(p1, kind))
+    except Exception:                                    # noqa: BLE001 - usability is C14's subject
+        pass
     ch2, p2, _, _, _ = build(case)
     other = dict(case, seed=case['seed'] + 1, model='R' if case['model'] != 'R' else 'A')
     ch3, p3, _, _, _ = build(other)
-    for i in range(case['nsteps']):
-        ch3.step()
-        ch2.step()
-        ch3.step()
+    for i in range(len(trace1)):
+        try:
+            ch3.step()
+        except Exception:                                # noqa: BLE001
+            pass
+        try:
+            ch2.step()
+        except Exception:                                # noqa: BLE001
+            break
         if scale_bytes(p2, kind) != trace1[i]:
             return [('foreign-history:' + case['family'],
                      '%s: the adaptive state at iteration %d depends on whether another chain of the same '
@@ -1103,7 +1131,9 @@ def gen_direction_cases(seed, tier, full=False):
                         continue
                     if thorough:
                         T = rng.choice([40, 400, 4000]) if not loops else rng.choice([40, 150, 400])
-                        total = 20000 if not loops or pat == 'R' else 3000
+                        total = 20000 if (k, st) in ((1, 1), (3, 3)) and pat in ('A', 'R') else 6000
+                        if loops and pat != 'R':
+                            total = 3000
                     else:
                         T = rng.choice([25, 120]) if not loops else rng.choice([25, 80])
                         total = 700
